@@ -14,6 +14,7 @@ func main() {
 		workerMain()
 		return
 	}
+	os.Setenv("PATH", "/opt/veriftools/go1.26.8/bin:"+os.Getenv("PATH"))
 	StartWorkers(16)
 	defer StopWorkers()
 	repo := flag.String("repo", "/repo", "repository root")
@@ -58,6 +59,13 @@ func main() {
 		}
 		all = append(all, r.Obls...)
 	}
+	if *fn == "" {
+		lo, err := VerifyLemmas(w, pi)
+		if err != nil {
+			fmt.Println("ENGINE ERROR:", err)
+		}
+		all = append(all, lo...)
+	}
 	fmt.Printf("%d obligations generated in %v\n", len(all), time.Since(t0))
 	Discharge(all, counts, RunConfig{TimeoutMs: *timeout, Workers: 16})
 	bad := 0
@@ -70,6 +78,27 @@ func main() {
 		if o.Verdict != VUnsat && *dump {
 			fmt.Println("   clause:", o.Clause)
 			fmt.Println("   model:", strings.ReplaceAll(o.Model, "\n", " "))
+			if o.Goal.Op == "and" {
+				var subs []*Obligation
+				for _, g := range o.Goal.Args {
+					so := *o
+					so.Goal = g
+					so.Name = g.String()
+					subs = append(subs, &so)
+					counts[&so] = counts[o]
+				}
+				Discharge(subs, counts, RunConfig{TimeoutMs: *timeout, Workers: 16})
+				for _, so := range subs {
+					if so.Verdict != VUnsat {
+						n := so.Name
+						if len(n) > 300 {
+							n = n[:300]
+						}
+						fmt.Println("   failing conjunct:", so.Verdict, n)
+						fmt.Println("      model:", strings.ReplaceAll(so.Model, "\n", " "))
+					}
+				}
+			}
 			hyps := o.BuildQuery(counts[o])
 			os.WriteFile("/tmp/govc_fail_"+fmt.Sprint(bad)+".smt2", []byte(Script(hyps, o.Goal, nil)), 0o644)
 		}
